@@ -1,6 +1,8 @@
 import PartituraModel.Wire
 import PartituraModel.Model.PerfMidi
 import PartituraModel.Model.PerfMidiRegen
+import PartituraModel.Model.PerfObject
+import PartituraModel.Model.PerfFloat
 
 open Wire Model Model.PerfMidi
 
@@ -76,17 +78,6 @@ def pPart : P PPart := do
   let cs ← list pCtl; let ns ← list pNote; let ps ← list pProg
   pure { metaOther := mo, keySigs := ks, timeSigs := ts, controls := cs, notes := ns, programs := ps }
 
-def pOverride : P (Rat × Int) := do
-  let t ← rat; let k ← int
-  pure (t, k)
-
-/-- the exporter's conversion, with the ticks the binary64 evaluation produced for the listed times that
-    sit on (or within rounding noise of) a half-tick boundary — the exact model cannot decide those -/
-def quantWith (ov : List (Rat × Int)) (mpq ppq : Nat) (t : Rat) : Int :=
-  match ov.find? (fun p => p.1 = t) with
-  | some p => p.2
-  | none => quant mpq ppq t
-
 def fmtTrack (t : Track) : String := fmtList (fun m => fmtEv m.1 m.2) t
 
 def fmtOptNat : Option Nat → String
@@ -146,14 +137,104 @@ def pLoad : P (Nat × Nat × Bool × List Track) := do
   let ppq ← nat; let d ← nat; let m ← bool; let ts ← list (list pTMsg)
   pure (ppq, d, m, ts)
 
+-- ------------------------------------------------------------------ round 5: histories of uses of one object
+
+def pUse : P Use := do
+  let k ← nat
+  match k with
+  | 0 => do let p ← bool; let d ← nat; let m ← bool; pure (Use.load p d m)
+  | 1 => do let p ← bool; let d ← nat; let m ← bool; let z ← bool; pure (Use.loadPerf p d m z)
+  | 2 => do let p ← bool; pure (Use.noteArray p)
+  | 3 => pure Use.save
+  | 4 => pure Use.iter
+  | 5 => do let p ← bool; pure (Use.loadDefault p)
+  | 6 => do let p ← bool; pure (Use.loadPerfDefault p)
+  | _ => P.fail
+
+def fmtObj (f : MidiObj) : String := fmtTuple [fmtNat f.ppq, fmtList fmtTrack f.tracks]
+
+def fmtPPartSec (p : PPart) : String :=
+  fmtTuple [
+    fmtList (fun (n : PNote) => fmtTuple [fmtRat n.on, fmtRat n.off]) p.notes,
+    fmtList (fun (c : PCtl) => fmtRat c.time) p.controls,
+    fmtList (fun (g : PProg) => fmtRat g.time) p.programs,
+    fmtList (fun (g : PTime) => fmtRat g.time) p.timeSigs,
+    fmtList (fun (g : PKey) => fmtRat g.time) p.keySigs,
+    fmtList (fun (g : PMetaO) => fmtRat g.time) p.metaOther]
+
+/-- the order of the rows of a note array is not part of the check: both sides print them sorted -/
+def nrowLe (a b : NRow) : Bool :=
+  decide (a.1 < b.1) || (decide (a.1 = b.1) && (decide (a.2.1 < b.2.1) || (decide (a.2.1 = b.2.1) &&
+    (decide (a.2.2.1 < b.2.2.1) || (decide (a.2.2.1 = b.2.2.1) && decide (a.2.2.2 ≤ b.2.2.2))))))
+
+/-- the integer view of what a use returned -/
+def fmtOutInt : Out → String
+  | .loaded r => fmtTuple ["L", fmtList fmtPartInt (r.kept.zip ((loadNumbers r.kept).zip (loadMetaNumbers r.kept)))]
+  | .performance _ r => fmtTuple ["P", match r with
+    | some ps => fmtList (fun (p : PPart) => fmtSPartInt p.toSPart) ps
+    | none => "err"]
+  | .noteArray r => fmtTuple ["N", match r with
+    | some rows => fmtList (fun (x : NRow) => fmtTuple [fmtInt x.1, fmtNat x.2.1, fmtNat x.2.2.1, fmtNat x.2.2.2]) (sortBy nrowLe rows)
+    | none => "err"]
+  | .saved f => fmtTuple ["S", fmtObj f]
+  | .messages abs => fmtTuple ["I", fmtList fmtTrack abs]
+
+/-- the seconds of what a use returned -/
+def fmtOutSec : Out → String
+  | .loaded r => (match r.parts with
+    | some ps => fmtList fmtPPartSec ps
+    | none => "err")
+  | .performance _ r => (match r with
+    | some ps => fmtList (fun (p : PPart) => fmtSPartSec p.toSPart) ps
+    | none => "err")
+  | _ => "[]"
+
+def pHist : P (MidiObj × List Use) := do
+  let ppq ← nat; let ts ← list (list pTMsg); let us ← list pUse
+  pure (⟨ppq, ts⟩, us)
+
+def pSaveOpts : P SaveOpts := do
+  let dflt ← bool; let ppq ← nat; let mpq ← nat; let m ← bool; let o ← bool
+  pure (if dflt then SaveOpts.defaults o else { ppq := ppq, mpq := mpq, merge := m, toObject := o })
+
+def pPerfArg : P PerfArg := do
+  let k ← nat; let ps ← list pPart
+  match k, ps with
+  | 0, ps => pure (PerfArg.performance ps)
+  | 1, [p] => pure (PerfArg.part p)
+  | 2, ps => pure (PerfArg.parts ps)
+  | 3, ps => pure (PerfArg.mixed ps)
+  | 4, _ => pure PerfArg.other
+  | _, _ => P.fail
+
+def fmtFile (r : Option (Nat × List Track)) : String :=
+  match r with
+  | some r => fmtTuple [fmtNat r.1, fmtList fmtTrack r.2]
+  | none => "err"
+
 def handle (ts : List String) : String :=
   match ts with
+  | "hist" :: rest =>
+    -- hist ppq tracks uses -> ([integer view of every result],object at the end)
+    orErr <| (run pHist rest).bind fun (f, us) =>
+      if f.ppq = 0 then none else
+      let r := runUses f us
+      some (fmtTuple [fmtList fmtOutInt r.2, fmtObj r.1])
+  | "histt" :: rest =>
+    orErr <| (run pHist rest).bind fun (f, us) =>
+      if f.ppq = 0 then none else
+      some (fmtList fmtOutSec (runUses f us).2)
+  | "saves" :: rest =>
+    -- saves kind parts options -> [file or err], every save of the history; the ticks in binary64 (`quantF`)
+    orErr <| (run (do let a ← pPerfArg; let os ← list pSaveOpts; pure (a, os)) rest).bind fun (a, os) =>
+      if os.any (fun o => o.mpq = 0) then none else
+      some (fmtList fmtFile (runSaves quantF a os).2)
   | "exp" :: rest =>
-    -- exp ppq mpq merge overrides parts  ->  (type,[tracks in delta times])
-    orErr <| (run (do let ppq ← nat; let mpq ← nat; let m ← bool; let ov ← list pOverride; let ps ← list pPart
-                      pure (ppq, mpq, m, ov, ps)) rest).bind fun (ppq, mpq, m, ov, ps) =>
+    -- exp ppq mpq merge parts  ->  (type,[tracks in delta times]); the ticks in binary64 (`quantF`)
+    orErr <| (run (do let ppq ← nat; let mpq ← nat; let m ← bool; let ps ← list pPart
+                      pure (ppq, mpq, m, ps)) rest).bind fun (ppq, mpq, m, ps) =>
       if mpq = 0 then none else
-      let r := exportFile (quantWith ov mpq ppq) mpq m ps
+      let r := exportFile (quantF mpq ppq) mpq m ps
       some (fmtTuple [fmtNat r.1, fmtList fmtTrack r.2])
   | "load" :: rest =>
     orErr <| (run pLoad rest).bind fun (ppq, _, m, tracks) =>
@@ -164,6 +245,12 @@ def handle (ts : List String) : String :=
     orErr <| (run pLoad rest).bind fun (ppq, d, m, tracks) =>
       if ppq = 0 then none else
       let sec := secondsAt d (loaderTracks m tracks) ppq
+      some (fmtList (fmtPartSec sec) (loadFile m tracks))
+  | "loadf" :: rest =>
+    -- the seconds of every loaded event as the loader computes them, in binary64 (`secondsAtF`): compared exactly
+    orErr <| (run pLoad rest).bind fun (ppq, d, m, tracks) =>
+      if ppq = 0 then none else
+      let sec := secondsAtF d (loaderTracks m tracks) ppq
       some (fmtList (fmtPartSec sec) (loadFile m tracks))
   | "sil" :: rest =>
     -- load_performance(first_note_at_zero=True): integer view of all parts
@@ -203,6 +290,14 @@ def handle (ts : List String) : String :=
         if ppq1 = 0 || mpq2 = 0 then none else
         (regen (quant mpq2 ppq2) ppq1 d ml fnz one ts mpq2 ms).map fun r =>
           fmtTuple [fmtNat r.1, fmtList fmtTrack r.2]
+  | "regenf" :: rest =>
+    -- regenf ppq1 d ml one ppq2 mpq2 ms tracks -> the second file, every number in binary64 (no tolerance, no exclusion)
+    orErr <| (run (do let ppq1 ← nat; let d ← nat; let ml ← bool; let one ← bool
+                      let ppq2 ← nat; let mpq2 ← nat; let ms ← bool; let ts ← list (list pTMsg)
+                      pure (ppq1, d, ml, one, ppq2, mpq2, ms, ts)) rest).bind
+      fun (ppq1, d, ml, one, ppq2, mpq2, ms, ts) =>
+        if ppq1 = 0 || mpq2 = 0 then none else
+        (regenF ppq1 d ml one ts ppq2 mpq2 ms).map fun r => fmtTuple [fmtNat r.1, fmtList fmtTrack r.2]
   | _ => "bad-request"
 
 def main : IO Unit := mainLoop handle
